@@ -11,9 +11,11 @@
 // Goto(next label) + commit; the Run loop then begins the next attempt and the body parks again).
 //
 // Input (stdin), one JSON case per line:
-//   {"id":N, "archs":[{"locals":[{"init":z}|{"map":[[k,v],...]}], "labels":[{"tries":[{"ops":[OP...],"abort":bool}]}]}],
-//    "shared":[z...], "nchans":k, "mboxes":[owner...], "sched":[a...], "mbox_timeout_ms":150}
-//   OP = ["R",KIND,id,[idx...]] | ["W",KIND,id,[idx...],["c",z]|["l",d]]   KIND = loc|shr|in|out|box
+//
+//	{"id":N, "archs":[{"locals":[{"init":z}|{"map":[[k,v],...]}], "labels":[{"tries":[{"ops":[OP...],"abort":bool}]}]}],
+//	 "shared":[z...], "nchans":k, "mboxes":[owner...], "sched":[a...], "mbox_timeout_ms":150}
+//	OP = ["R",KIND,id,[idx...]] | ["W",KIND,id,[idx...],["c",z]|["l",d]]   KIND = loc|shr|in|out|box
+//
 // Output: one JSON line per case (see type result).
 package main
 
@@ -42,9 +44,23 @@ type localSpec struct {
 	Map  [][2]int32 `json:"map"`
 }
 type trySpec struct {
-	Ops   [][]json.RawMessage `json:"ops"`
-	Abort bool                `json:"abort"`
+	Ops    [][]json.RawMessage `json:"ops"`
+	Abort  bool                `json:"abort"`
+	Refuse bool                `json:"refuse"` // the body completes, but a dirty shared/channel resource refuses its PreCommit
 }
+
+// a shared variable: a number, or {"init":z} / {"map":[[k,v],...]}
+type sharedSpec struct{ localSpec }
+
+func (s *sharedSpec) UnmarshalJSON(b []byte) error {
+	var n int32
+	if json.Unmarshal(b, &n) == nil {
+		s.Init = &n
+		return nil
+	}
+	return json.Unmarshal(b, &s.localSpec)
+}
+
 type labelSpec struct {
 	Tries []trySpec `json:"tries"`
 }
@@ -53,13 +69,13 @@ type archSpec struct {
 	Labels []labelSpec `json:"labels"`
 }
 type kase struct {
-	ID            int        `json:"id"`
-	Archs         []archSpec `json:"archs"`
-	Shared        []int32    `json:"shared"`
-	NChans        int        `json:"nchans"`
-	Mboxes        []int      `json:"mboxes"`
-	Sched         []int      `json:"sched"`
-	MboxTimeoutMs int        `json:"mbox_timeout_ms"`
+	ID            int          `json:"id"`
+	Archs         []archSpec   `json:"archs"`
+	Shared        []sharedSpec `json:"shared"`
+	NChans        int          `json:"nchans"`
+	Mboxes        []int        `json:"mboxes"`
+	Sched         []int        `json:"sched"`
+	MboxTimeoutMs int          `json:"mbox_timeout_ms"`
 }
 
 type elemOut struct {
@@ -81,15 +97,16 @@ type perfOp struct {
 	K    string  `json:"k"`
 	ID   int     `json:"id"`
 	Idx  []int32 `json:"idx"`
-	Val  string  `json:"val"`          // value returned by Read / passed to Write (String())
-	Outc string  `json:"outc"`         // ok | abort | crash
+	Val  string  `json:"val"`  // value returned by Read / passed to Write (String())
+	Outc string  `json:"outc"` // ok | abort | crash
 	Err  string  `json:"err,omitempty"`
 }
 type perfAttempt struct {
-	Lbl int      `json:"lbl"`
-	Try int      `json:"try"`
-	Ops []perfOp `json:"ops"`
-	End string   `json:"end"` // commit | forced | abort | crash | halt | open
+	Lbl     int      `json:"lbl"`
+	Try     int      `json:"try"`
+	Ops     []perfOp `json:"ops"`
+	End     string   `json:"end"`     // commit | forced | abort | crash | halt | open
+	Refused bool     `json:"refused"` // the body returned Goto, a PreCommit was refused by the fault-injecting wrapper
 }
 type result struct {
 	ID       int             `json:"id"`
@@ -216,6 +233,8 @@ type archRun struct {
 	ctx      *distsys.MPCalContext
 	rec      *recorder
 	// set by the body for the driver
+	refuse     bool         // the running attempt wants its PreCommit refused
+	refused    bool         // a PreCommit was refused in the running attempt
 	atEnd      bool         // parked after the last op: the next step finishes the attempt
 	wroteBoxes map[int]bool // mailboxes written in the running attempt
 }
@@ -226,6 +245,44 @@ type runState struct {
 }
 
 func num(v int32) tla.Value { return tla.MakeNumber(v) }
+
+// faulty wraps a resource; everything is delegated, but PreCommit is refused (ErrCriticalSectionAborted) while the
+// archetype's running attempt asks for it. The wrapper is only asked if the resource is dirty in that attempt.
+type faulty struct {
+	inner distsys.ArchetypeResource
+	ar    *archRun
+}
+
+func (f *faulty) Abort(iface distsys.ArchetypeInterface) chan struct{} { return f.inner.Abort(iface) }
+func (f *faulty) PreCommit(iface distsys.ArchetypeInterface) chan error {
+	ch := f.inner.PreCommit(iface)
+	if !f.ar.refuse {
+		return ch
+	}
+	out := make(chan error, 1)
+	go func() {
+		if ch != nil {
+			<-ch
+		}
+		f.ar.refused = true
+		if n := len(f.ar.perf); n > 0 {
+			f.ar.perf[n-1].Refused = true
+		}
+		out <- distsys.ErrCriticalSectionAborted
+	}()
+	return out
+}
+func (f *faulty) Commit(iface distsys.ArchetypeInterface) chan struct{} { return f.inner.Commit(iface) }
+func (f *faulty) ReadValue(iface distsys.ArchetypeInterface) (tla.Value, error) {
+	return f.inner.ReadValue(iface)
+}
+func (f *faulty) WriteValue(iface distsys.ArchetypeInterface, value tla.Value) error {
+	return f.inner.WriteValue(iface, value)
+}
+func (f *faulty) Index(iface distsys.ArchetypeInterface, index tla.Value) (distsys.ArchetypeResource, error) {
+	return f.inner.Index(iface, index)
+}
+func (f *faulty) Close() error { return f.inner.Close() }
 
 func mkLocal(l localSpec) tla.Value {
 	if l.Map != nil {
@@ -392,6 +449,7 @@ func (ar *archRun) body(lbl int) func(distsys.ArchetypeInterface) error {
 		ar.perf = append(ar.perf, perfAttempt{Lbl: lbl, Try: tn, Ops: []perfOp{}, End: "open"})
 		cur := &ar.perf[len(ar.perf)-1]
 		ar.wroteBoxes = map[int]bool{}
+		ar.refuse, ar.refused = t.Refuse && !t.Abort, false
 		ar.atEnd = len(t.Ops) == 0
 		if !ar.park() {
 			cur.End = "halt"
@@ -454,7 +512,7 @@ func runCase(k kase) (res result) {
 	// shared resources
 	var mgrs []*resources.LocalSharedManager
 	for _, v := range k.Shared {
-		mgrs = append(mgrs, resources.NewLocalSharedManager(num(v), resources.WithLocalSharedResourceTimeout(2*time.Millisecond)))
+		mgrs = append(mgrs, resources.NewLocalSharedManager(mkLocal(v.localSpec), resources.WithLocalSharedResourceTimeout(2*time.Millisecond)))
 	}
 	var chans []chan tla.Value
 	for i := 0; i < k.NChans; i++ {
@@ -487,12 +545,12 @@ func runCase(k kase) (res result) {
 		var cfg []distsys.MPCalContextConfigFn
 		for j, m := range mgrs {
 			refs = append(refs, fmt.Sprintf("A%d.s%d", i, j))
-			cfg = append(cfg, distsys.EnsureArchetypeRefParam(fmt.Sprintf("s%d", j), m.MakeLocalShared()))
+			cfg = append(cfg, distsys.EnsureArchetypeRefParam(fmt.Sprintf("s%d", j), &faulty{inner: m.MakeLocalShared(), ar: ar}))
 		}
 		for c, ch := range chans {
 			refs = append(refs, fmt.Sprintf("A%d.ci%d", i, c), fmt.Sprintf("A%d.co%d", i, c))
-			cfg = append(cfg, distsys.EnsureArchetypeRefParam(fmt.Sprintf("ci%d", c), resources.NewInputChan(ch, resources.WithInputChanReadTimeout(2*time.Millisecond))))
-			cfg = append(cfg, distsys.EnsureArchetypeRefParam(fmt.Sprintf("co%d", c), resources.NewOutputChan(ch)))
+			cfg = append(cfg, distsys.EnsureArchetypeRefParam(fmt.Sprintf("ci%d", c), &faulty{inner: resources.NewInputChan(ch, resources.WithInputChanReadTimeout(2*time.Millisecond)), ar: ar}))
+			cfg = append(cfg, distsys.EnsureArchetypeRefParam(fmt.Sprintf("co%d", c), &faulty{inner: resources.NewOutputChan(ch), ar: ar}))
 		}
 		refs = append(refs, fmt.Sprintf("A%d.net", i))
 		net := resources.NewTCPMailboxes(func(idx tla.Value) (resources.MailboxKind, string) {
